@@ -39,7 +39,7 @@ ALT = {}
 
 
 def plan(tier, seed):
-    n = 64 if tier == 'quick' else 3000
+    n = 320 if tier == 'quick' else 3000
     return [{'idx': i, 'kind': ['plain', 'sat', 'plain', 'penalty'][i % 4]} for i in range(n)]
 
 
